@@ -20,14 +20,14 @@ const (
 	AuthMD5    = 2
 	AuthSHA256 = 3
 
-	IntegNone      = 0
-	IntegSHA1_96   = 1
-	IntegMD5_128   = 2
-	IntegPlainMD5  = 3
+	IntegNone       = 0
+	IntegSHA1_96    = 1
+	IntegMD5_128    = 2
+	IntegPlainMD5   = 3
 	IntegSHA256_128 = 4
 
-	ConfNone   = 0
-	ConfAES128 = 1
+	ConfNone    = 0
+	ConfAES128  = 1
 	ConfXRC4128 = 2
 	ConfXRC440  = 3
 )
